@@ -594,7 +594,15 @@ pub fn valid_method(bytes: &[u8]) -> bool {
         b"PROPFIND",
         b"PROPPATCH",
         b"UNLOCK",
-    )
+    ) || {
+        // Any other method (an extension method, e.g. `PURGE`) is a token followed by a space.
+        // The request parser keeps at most 7 bytes of it.
+        bytes
+            .iter()
+            .take(8)
+            .position(|byte| *byte == chars::SPACE)
+            .map_or(false, |len| Method::from_bytes(&bytes[..len]).is_ok())
+    }
 }
 /// Checks if `bytes` starts with a valid [`Version`]
 #[must_use]
